@@ -9,9 +9,9 @@
   the sender's rejects the sender's next encrypted field, or AeadContextCollision; every pattern's
   last message is processed under a key (`C03.last_message_keyed`); a party that has not finished
   cannot enter transport mode (`C11.convert_iff`), so no transport message is ever accepted.
-  NOT assembled: the end-to-end `C08_main` over whole mismatched runs (kept as a comment in C03 /
-  below); that claim additionally rests on the implementation oracle (mismatch generator: one bit
-  of the prologue, prologue length, one bit of one psk, another valid static, a different name).
+  The end-to-end statements are in `Theorems/C08Main.lean` (`C08_main`, `C08_prologue`, `C08_psk`,
+  `C08_psk_mod`, `C08_static`), proved on the specification (`Lemmas/IntegrityMain.lean`,
+  `IntegrityInit.lean`) and carried to this model through the C01 refinement.
 -/
 import SnowVerif.Theorems.C03
 import SnowVerif.Theorems.C11
